@@ -45,6 +45,10 @@ pub struct Case {
     /// index of the channel's output in the funding transaction (a change output comes first when 1)
     #[serde(default)]
     pub fvout: u32,
+    /// the request is a *retry*: the same commitment number was first signed / validated with the
+    /// base's own contents (and the same point); the contents under test are presented afterwards
+    #[serde(default)]
+    pub retry: bool,
     pub devs: Vec<Dev>,
 }
 
@@ -79,7 +83,7 @@ fn dev_kind(d: &Dev) -> String {
 pub fn policy(id: u8, ucs: bool) -> SimplePolicy {
     policy_with(|p| {
         match id {
-            1 | 3 => {
+            1 | 3 | 4 => {
                 p.min_delay = 5;
                 p.max_delay = 10;
                 p.max_htlcs = 2;
@@ -98,6 +102,14 @@ pub fn policy(id: u8, ucs: bool) -> SimplePolicy {
             // the tight policy again, with every tag family that no commitment / set-up rule
             // reports under demoted to a warning (the policy stays non-permissive for C05's bounds)
             p.filter = unrelated_filter(&["policy-commitment", "policy-channel", "policy-funding"]);
+        }
+        if id == 4 {
+            // the tight policy again, with the rules of the commitment family that are *not* bounds
+            // of C05 (retry with changed contents, re-validation of a revoked holder commitment,
+            // routing balance, payment velocity) demoted one by one; every bound stays mandatory
+            use lightning_signer::policy::filter::{FilterResult, FilterRule, PolicyFilter};
+            let tags = ["policy-commitment-retry-same", "policy-commitment-holder-not-revoked", "policy-commitment-htlc-routing-balance", "policy-commitment-payment-velocity"];
+            p.filter = PolicyFilter { rules: tags.iter().map(|t| FilterRule { tag: t.to_string(), is_prefix: false, action: FilterResult::Warn }).collect() };
         }
         p.use_chain_state = ucs;
     })
@@ -492,6 +504,37 @@ fn run_case(case: &Case) -> Res {
     }
     let c = e.c.clone();
     let n = e.n;
+    if case.retry {
+        // the number under test is first used with the base's own contents; a set-up that cannot
+        // carry them (deviating channel value ...) is not a retry case
+        let c0 = effective(&Case { devs: vec![], ..case.clone() }).c;
+        if ch.approve_out(&c0).is_err() {
+            r.skipped = true;
+            r.class = "keysend-failed".into();
+            return r;
+        }
+        r.calls += 1;
+        let first: Outcome<()> = match case.entry {
+            Entry::SignCp => {
+                let point = ch.cp.point(n);
+                ch.w.with_chan(DBID, |chn| chn.sign_counterparty_commitment_tx_phase2(&point, n, c0.feerate, c0.to_holder, c0.to_cp, c0.inc_info(), c0.out_info()).map(|_| ()))
+            }
+            _ => {
+                let params = ch.params.clone();
+                let cpk = ch.cp.clone();
+                let cc = c0.clone();
+                match ch.w.holder_point_raw(DBID, n).and_then(|p| catch(move || params.cp_sign_holder_commitment(&cpk, n, &p, &cc)).ok()) {
+                    Some((sig, hs)) => ch.w.with_chan(DBID, |chn| chn.validate_holder_commitment_tx_phase2(n, c0.feerate, c0.to_holder, c0.to_cp, c0.out_info(), c0.inc_info(), &sig, &hs).map(|_| ())),
+                    None => Outcome::Err("request-not-constructible".into()),
+                }
+            }
+        };
+        if !first.is_ok() {
+            r.skipped = true;
+            r.class = "first-use-of-the-number-refused".into();
+            return r;
+        }
+    }
     r.calls += 1;
     let before = if crate::monitors::grid_monitors() { Some(ch.w.snapshot()) } else { None };
     let o: Outcome<()> = match case.entry {
@@ -699,13 +742,13 @@ fn alphabet(case: &Case) -> Vec<Dev> {
 
 fn bases(tier: Tier) -> Vec<Case> {
     let mut v = vec![];
-    for pol in 0..4u8 {
+    for pol in 0..5u8 {
         for onchain in [false, true] {
-            if pol == 3 && onchain {
+            if pol >= 3 && onchain {
                 continue;
             }
             for ucs in [false, true] {
-                if pol == 3 && ucs && tier == Tier::Quick {
+                if (pol == 3 && ucs && tier == Tier::Quick) || (pol == 4 && ucs) {
                     continue;
                 }
                 for anchors in [false, true] {
@@ -726,20 +769,20 @@ fn bases(tier: Tier) -> Vec<Case> {
                         let chain = if onchain { 1 } else { 0 };
                         let f = chain_facts(chain);
                         let cltv = f.height + 6;
-                        v.push(Case { pol, onchain, ucs, chain, v: sv.clone(), ctype, entry: Entry::Setup, n: 0, c: balanced(&sv, initial_holder_total(&sv), vec![], vec![], 1000), other_ahead: false, fvout: 0, devs: vec![] });
+                        v.push(Case { pol, onchain, ucs, chain, v: sv.clone(), ctype, entry: Entry::Setup, n: 0, c: balanced(&sv, initial_holder_total(&sv), vec![], vec![], 1000), other_ahead: false, fvout: 0, retry: false, devs: vec![] });
                         for entry in [Entry::SignCp, Entry::Validate] {
                             // initial commitment
-                            v.push(Case { pol, onchain, ucs, chain, v: sv.clone(), ctype, entry, n: 0, c: balanced(&sv, initial_holder_total(&sv), vec![], vec![], 1000), other_ahead: false, fvout: 0, devs: vec![] });
+                            v.push(Case { pol, onchain, ucs, chain, v: sv.clone(), ctype, entry, n: 0, c: balanced(&sv, initial_holder_total(&sv), vec![], vec![], 1000), other_ahead: false, fvout: 0, retry: false, devs: vec![] });
                             // a later commitment with one offered and one received HTLC
                             let ht = if outbound { sv.value - 1_000_000 } else { 1_000_000 };
                             let c1 = balanced(&sv, ht, vec![H { value_sat: 20_000, hash: 2, cltv }], vec![H { value_sat: 25_000, hash: 1, cltv: cltv + 1 }], 1000);
-                            v.push(Case { pol, onchain, ucs, chain, v: sv.clone(), ctype, entry, n: 1, c: c1.clone(), other_ahead: false, fvout: 0, devs: vec![] });
+                            v.push(Case { pol, onchain, ucs, chain, v: sv.clone(), ctype, entry, n: 1, c: c1.clone(), other_ahead: false, fvout: 0, retry: false, devs: vec![] });
                             if pol != 2 {
-                                v.push(Case { pol, onchain, ucs, chain, v: sv.clone(), ctype, entry, n: 1, c: c1, other_ahead: true, fvout: 0, devs: vec![] });
+                                v.push(Case { pol, onchain, ucs, chain, v: sv.clone(), ctype, entry, n: 1, c: c1, other_ahead: true, fvout: 0, retry: false, devs: vec![] });
                             }
                             // and one without HTLCs
                             let c2 = balanced(&sv, ht, vec![], vec![], 1000);
-                            v.push(Case { pol, onchain, ucs, chain, v: sv.clone(), ctype, entry, n: 1, c: c2, other_ahead: false, fvout: 0, devs: vec![] });
+                            v.push(Case { pol, onchain, ucs, chain, v: sv.clone(), ctype, entry, n: 1, c: c2, other_ahead: false, fvout: 0, retry: false, devs: vec![] });
                         }
                     }
                 }
@@ -753,6 +796,10 @@ fn bases(tier: Tier) -> Vec<Case> {
     // first-commitment bases of the simple validator (tight and default policy)
     let by_wire: Vec<Case> = v.iter().filter(|c| !c.onchain && !c.ucs && c.pol < 2 && c.n == 0).map(|c| { let mut c = c.clone(); c.v.wire = true; c }).collect();
     v.extend(by_wire);
+    // under the policy that demotes the non-bound commitment rules, every commitment base also as
+    // a retry of its own number (the deviations then change the contents of the retry)
+    let retries: Vec<Case> = v.iter().filter(|c| c.pol == 4 && c.entry != Entry::Setup && !c.other_ahead).map(|c| { let mut c = c.clone(); c.retry = true; c }).collect();
+    v.extend(retries);
     let with_change: Vec<Case> = v.iter().filter(|c| c.onchain && c.entry != Entry::Setup && c.n == 1).map(|c| { let mut c = c.clone(); c.fvout = 1; c }).collect();
     v.extend(with_change);
     v
